@@ -64,6 +64,10 @@ RANGES = {
 }
 
 
+LOOSEST = {"NNDVI.alpha": [1.0, 0.9], "KdqTreeBatch.alpha": [1.0, 0.99, 0.9], "KdqTreeStreaming.alpha": [1.0, 0.99, 0.9],
+           "HDDDM.tstat": [1.0], "CDBD.tstat": [1.0]}
+
+
 def draw_values(fam, rng, k):
     lo, hi, logu, strict, bound = RANGES[fam]
     if logu:
@@ -73,6 +77,8 @@ def draw_values(fam, rng, k):
     v = sorted({float(np.round(x, 6)) for x in v}, reverse=(strict == "low"))
     if bound is not None and rng.random() < 0.5:
         v.append(bound)
+    if fam in LOOSEST and rng.random() < 0.35:
+        v = [x for x in LOOSEST[fam] if x not in v] + v  # the loosest valid settings (a level of 1: every batch is "significant")
     return v
 
 
@@ -123,7 +129,7 @@ def base_params(det, rng, fam):
         p["target"], p["sd_hat"] = (None, None) if rng.random() < 0.5 else (0.0, 1.0)
     if det == "NNDVI":
         # many and few re-assignments: the critical value of a setting may be governed by the bulk or by the tail of the sampled distances
-        p["sampling_times"] = int(rng.choice([10, 40, 150, 400]))
+        p["sampling_times"] = int(rng.choice([1, 2, 10, 10, 40, 40, 150, 400]))
     return p
 
 
